@@ -80,8 +80,17 @@ pub fn helper_main(args: &[String]) {
 
 /// Spawns an idle child process (exec of ourselves, so it is single-threaded
 /// and has a sane address space) and returns its pid.
+/// The vcheck binary (helper modes live there): ourselves, unless we are a fuzz target binary.
+pub fn helper_exe() -> std::path::PathBuf {
+    let me = std::env::current_exe().unwrap();
+    if me.file_name().and_then(|n| n.to_str()) == Some("vcheck") {
+        return me;
+    }
+    crate::fw::verif_root().join("harness/target/verif/vcheck")
+}
+
 pub fn spawn_idle() -> i32 {
-    let exe = std::env::current_exe().unwrap();
+    let exe = helper_exe();
     let child = std::process::Command::new(exe)
         .args(["helper", "idle"])
         .stdin(std::process::Stdio::null())
